@@ -305,6 +305,7 @@ func joinFilter(a []any, sep func(string) string) any {
 	ss := make([]string, 0, len(a))
 	s := sep(" ")
 	for _, v := range a {
+		v = values.ToLiquid(v) // an element may be a Drop
 		if v != nil {
 			ss = append(ss, values.Sprint(v))
 		}
